@@ -207,7 +207,7 @@ func c18EvCheck(ctx *vfCtx, c c18EvCase) {
 		ctx.Unjudged("generator: unknown room version")
 		return
 	}
-	s := c18NewState(ctx, "C18/events")
+	s := c18NewState(ctx, "C18")
 	q := c18Querier(c.Querier)
 	ctx.Class("version/" + c.Version)
 
@@ -241,7 +241,7 @@ func c18EvCheck(ctx *vfCtx, c c18EvCase) {
 		if terr == nil && tr != nil {
 			ctx.Class("trusted-only/accepted")
 			ctx.Unjudged("event accepted only by NewEventFromTrustedJSON (documented for previously validated JSON): operations observed, panics counted as classes, not judged")
-			qs := c18NewState(ctx, "C18/events")
+			qs := c18NewState(ctx, "C18")
 			qs.quiet = true
 			c18Ops(qs, impl, tr, q, "trusted-only")
 		}
@@ -711,6 +711,13 @@ func c18EnumHostile(size, shard, nshards int, emit func(c18EvCase)) {
 	pick := func() bool {
 		idx++
 		return idx%nshards == shard && c07Pick(idx, size)
+	}
+	// the named seeds first (never sampled away)
+	for _, c := range c18SeedEvents() {
+		idx++
+		if idx%nshards == shard {
+			emit(c)
+		}
 	}
 	roles := []string{"create", "power_levels", "join_rules", "member", "third_party_invite", "aliases", "redaction", "history_visibility", "message", "custom"}
 	for _, version := range vfVersions {
